@@ -75,6 +75,13 @@ func genPlan(rng *rand.Rand, seed uint64, vt bool) plan {
 	p.Partitions = 1 + rng.IntN(3)
 	p.Members = 1 + rng.IntN(4)
 	p.Churn = rng.IntN(3)
+	if vt {
+		// Virtual time: one member, then the draining member. With several members (or leader moves) a
+		// source can be left with no usable cursor while acks for its records still arrive; the share
+		// fetch loop then spins until its 1 s ack timer fires, and inside a bubble a spinning goroutine
+		// keeps virtual time from advancing, so the timer never fires.
+		p.Members, p.Churn = 1, 0
+	}
 	for i := 0; i < p.Members+p.Churn; i++ {
 		p.Rounds = append(p.Rounds, 3+rng.IntN(10))
 		pm := -1
@@ -113,7 +120,7 @@ func genPlan(rng *rand.Rand, seed uint64, vt bool) plan {
 	nev := rng.IntN(4)
 	for i := 0; i < nev; i++ {
 		ev := planEvent{AtPoll: 1 + rng.IntN(totalPolls)}
-		if p.Brokers > 1 && rng.IntN(3) > 0 {
+		if p.Brokers > 1 && !vt && rng.IntN(3) > 0 {
 			ev.Kind, ev.P, ev.Node = "move", int32(rng.IntN(p.Partitions)), int32(rng.IntN(p.Brokers))
 		} else if p.KillBefore+p.KillAfter > 0 {
 			ev.Kind = "killall"
